@@ -326,7 +326,7 @@ def c01_step(maxsize: int, idle: int, leased_n: int, dropped_mask: int, block: b
     """
     pre: 1 <= maxsize <= P.maxsize_max
     pre: 0 <= idle and 0 <= leased_n <= P.leased_max and idle + leased_n <= maxsize
-    pre: 0 <= dropped_mask < 2 ** idle
+    pre: 0 <= dropped_mask < 2 ** idle and dropped_mask <= P.dmask_max and block in P.blocks
     pre: relmode in P.relmodes and rkind in P.rkinds and 0 <= rtotal <= 1
     pre: fault == P.fault and dfault == P.dfault
     pre: resp_kind in P.resp_kinds
@@ -347,55 +347,67 @@ def JOBS(tier):
     alld = list(range(8))
 
     def job(step, fault, dfault, resp_kinds, disps, *, full=False, rkinds=(2,), relmodes=(0, 1, 2), ks=(3,),
-            posts=(False,)):
+            posts=(False,), blocks=None):
+        if blocks is None:
+            blocks = (False, True) if (full or not quick) else (True,)
         jobs.append({"func": "c01_step", "timeout": t, "path_timeout": 60,
                      "part": {"step": step, "fault": fault, "dfault": dfault, "resp_kinds": list(resp_kinds),
                               "disps": list(disps), "maxsize_max": (2 if quick else 3) if full else (1 if quick else 2),
                               "leased_max": 3 if full else (0 if quick else 1),
+                              "dmask_max": 7 if (full or not quick) else 0, "blocks": list(blocks),
                               "rkinds": list(rkinds), "relmodes": list(relmodes), "ks": list(ks),
                               "posts": list(posts)}})
     F = FAULT_IDX
     swallowed = (F["epipe"], F["reset"], F["eprototype"])
     # (B1) no fault: every response kind x every disposal, small pre-states
     for rk in allk:
-        for pre in ((0, 1), (2,)):
+        for pre in (((0, 1, 2),) if quick else ((0, 1), (2,))):
             job(0, -1, -1, [rk], alld, ks=(0, 3) if quick else (0, 3, 10, 11), relmodes=pre,
                 rkinds=(2,) if rk in (2, 3) else (1,))
     # (B2) connect / send faults: every exception kind; swallowed ones (EPIPE...) go on to a response
+    connect_kinds = [F[n] for n in ("timeout", "refused", "gaierror", "sslerror", "interrupt", "eio")]
+    send_kinds = [F[n] for n in ("timeout", "epipe", "reset", "eprototype", "eio", "sslerror", "interrupt")]
     for f in range(len(FAULTS)):
         for step in (1, 2, 3):
+            if quick and f not in (connect_kinds if step == 1 else send_kinds):
+                continue
             goes_on = step in (2, 3) and f in swallowed
-            job(step, f, -1, [0], [0, 4] if goes_on else [0], rkinds=(0, 1, 2),
-                relmodes=(0, 1, 2) if goes_on else (0,), posts=(True,) if step == 3 else (False,))
+            job(step, f, -1, [0], [0, 4] if goes_on else [0], rkinds=(2,) if goes_on else (0, 1, 2),
+                relmodes=(0, 2) if goes_on else (0,), posts=(True,) if step == 3 else (False,))
     # (B3) receive faults at 4 positions: before status line, inside headers, before body, mid-body
     for s in (4, 5, 6, 7):
         late = s >= 6
+        kinds_exc = [[0], [4]] if late else [[0]]
+        kinds_data = [[0], [4], [5]] if late else [[0]]
         for f in (F["timeout"], F["reset"], F["sslerror"], F["interrupt"], F["eagain"], F["eio"]):
-            job(s, f, -1, [0, 4] if late else [0], [0, 1, 4, 5] if late else [0], rkinds=(2,) if late else (0, 2),
-                relmodes=(0, 2) if late else (0, 1, 2))
+            for rks in kinds_exc:
+                job(s, f, -1, rks, [0, 1, 4, 5] if late else [0], rkinds=(2,) if late else (0, 2),
+                    relmodes=(0, 2) if late else (0, 1, 2))
         for d in range(len(DATA_FAULTS)):
             if late and d == 2:
                 continue
-            job(s, -1, d, [0, 4, 5] if late else [0], [0, 1, 4, 5] if late else [0], rkinds=(2,) if late else (0, 2),
-                relmodes=(0, 2) if late else (0, 1, 2))
+            for rks in kinds_data:
+                job(s, -1, d, rks, [0, 1, 4, 5] if late else [0], rkinds=(2,) if late else (0, 2),
+                    relmodes=(0, 2) if late else (0, 1, 2))
     # (A) queue mechanics: all pre-states (idle/leased/dropped, maxsize<=2|3) x block x preload x release
     for (step, f, d, rk, disps) in [
         (0, -1, -1, 0, [0]), (0, -1, -1, 0, [2]), (0, -1, -1, 1, [0, 5]), (0, -1, -1, 2, [0]), (0, -1, -1, 3, [0]),
         (1, F["refused"], -1, 0, [0]), (1, F["interrupt"], -1, 0, [0]), (2, F["reset"], -1, 0, [0]),
         (4, F["timeout"], -1, 0, [0]), (4, -1, 0, 0, [0]), (6, -1, 0, 0, [0, 1]), (7, F["interrupt"], -1, 0, [0, 5]),
     ]:
-        job(step, f, d, [rk], disps, full=True, rkinds=(2,) if rk in (2, 3) or step else (1,))
+        job(step, f, d, [rk], disps, full=True, rkinds=(2,) if rk in (2, 3) or step else (1,),
+            relmodes=(0,) if quick else (0, 1, 2))
     return jobs
 
 
 EVIDENCE = {
-    "bounds": {"quick": "one attempt (re-entry cut) from a symbolic valid pool state; families: (B) maxsize=1 with idle/dropped "
-                        "symbolic x block x preload x release_conn mode x disposal mode, for no fault x 7 response kinds x 8 "
-                        "disposals, 11 exception kinds at connect/send-headers/send-body, 6 exception kinds + 3 data faults at 4 "
-                        "receive positions; (A) every pool state with maxsize<=2 (idle, leased<=maxsize, dropped mask) for 12 "
-                        "scenarios",
-               "thorough": "same families with maxsize<=2 (B) / <=3 (A), leased holders in (B), read amounts {0,3,10,11}, "
-                           "7x path budget"},
+    "bounds": {"quick": "one attempt (re-entry cut) from a symbolic valid pool state; families: (B) block=True pool of maxsize 1 "
+                        "with 0/1 idle connection x preload x release_conn mode x disposal mode, for: no fault x 7 response kinds x "
+                        "8 disposals; 6 exception kinds at connect, 7 at send-headers/send-body; 6 exception kinds + 3 data faults "
+                        "at 4 receive positions; (A) every pool state with maxsize<=2 (idle, leased, dropped mask, block) for 12 "
+                        "scenarios with release_conn=None",
+               "thorough": "(B) maxsize<=2, block both, dropped idle connections, leased holders, all 11 exception kinds at every "
+                           "step, read amounts {0,3,10,11}; (A) maxsize<=3, all release modes; 6x path budget"},
     "outside": ["faults inside queue.LifoQueue", "asynchronous exceptions between two pure-Python statements",
                 "more than one fault per attempt (covered inductively: each attempt restarts from INV)",
                 "TLS / proxied pools (C07, C09 harnesses)"],
